@@ -82,7 +82,12 @@ def process_level(res, tier):
             if fptype == 3:
                 k = steps // 8
                 mq, mp = sum(bl[-k:]) / k, sum(es[-k:]) / k
-                tol = 0.005 + 0.45 * d * d
+                # "to within the discretisation error of the grid": a second-order error with the constant each stencil shows on the unchanged tree, half as much again
+                # (3-point stencil: the limit lies 0.23-0.32 d^2 below 1; 4-point stencil: within 0.1 d^2; the bunch length sits another 0.004-0.006 lower, the
+                #  splitting error of kick and drift at 64 steps per period) - an error that shrinks like d instead of d^2 (1/N = d/12) is outside it on these grids
+                tol = (0.004 + 0.30 * d * d) if stencil == 3 else (0.008 + 0.06 * d * d)
+                if os.environ.get("VERIF_DEBUG"):
+                    print("DBG n=%d stencil=%d geo=%d zoom=%g d2=%.4f dq=%+.5f dp=%+.5f" % (n, stencil, geo, zoom, d * d, mq - 1, mp - 1), file=sys.stderr)
                 res.coverage["worst_process_limit_over_tol"] = max(res.coverage.get("worst_process_limit_over_tol", 0), max(abs(mq - 1), abs(mp - 1)) / tol)
                 if not (abs(mq - 1) <= tol and abs(mp - 1) <= tol):
                     res.violate("C04/process/full/stencil=%d/wrong-limit" % stencil, bcase, "after 8 damping times bunch length %.5f, energy spread %.5f (tolerance %.4f)" % (mq, mp, tol), replay=rp)
